@@ -170,7 +170,9 @@ func c09http(c *run.Ctx) {
 						}
 						c.Case(fmt.Sprintf("http caller=%s kind=%s state=%s hint=%s covered=%v active=%v status=%d", cl.name, t.Kind, st, hintName(hint, t.Kind), covered, active, out.Status))
 						key := fmt.Sprintf("caller=%s kind=%s", cl.name, originOf(t))
-						hist := func() []string { return append(append([]string(nil), s.Hist...), fmt.Sprintf("introspect %s caller=%s hint=%q scope=%v", t.Name(), cl.name, hint, sl)) }
+						hist := func() []string {
+							return append(append([]string(nil), s.Hist...), fmt.Sprintf("introspect %s caller=%s hint=%q scope=%v", t.Name(), cl.name, hint, sl))
+						}
 						switch cl.ok {
 						case 0:
 							c.Count("http_caller_refused", 1)
